@@ -72,7 +72,7 @@ func vfcrigGenSet(rng *rand.Rand, idx int) vfcrigSet {
 			b := a
 			b.Ext = map[string]string{"e": "1", "r": "b"}
 			set.Specs[i] = a
-			if i < 2 {
+			if i < 1 || (i < 2 && k == 5) {
 				set.Specs = append(set.Specs, b)
 			}
 		}
